@@ -89,25 +89,18 @@ class World:
     def ground_len_facts(self, formulas, depth=3):
         """Quantifier-free instances of  len_l(x) >= 0  for every len_l term in the formulas
         (and for `depth` tails of its argument)."""
+        from .specs import len_args
         S = self.S
         seen = set()
         out = []
-        stack = list(formulas)
-        while stack:
-            t = stack.pop()
-            if t.get_id() in seen:
-                continue
-            seen.add(t.get_id())
-            if z3.is_quantifier(t):
-                stack.append(t.body())
-                continue
-            if z3.is_app(t):
-                if t.decl().name() == "len_l" and t.num_args() == 1:
-                    a = t.arg(0)
-                    for _ in range(depth + 1):
-                        out.append(S.len_l(a) >= 0)
-                        a = S.tail(a)
-                stack.extend(t.children())
+        for f in formulas:
+            for a in len_args(self, f):
+                if a.get_id() in seen:
+                    continue
+                seen.add(a.get_id())
+                for _ in range(depth + 1):
+                    out.append(S.len_l(a) >= 0)
+                    a = S.tail(a)
         return out
 
     def fresh_name(self, base):
@@ -979,6 +972,11 @@ class Exec:
             # map patterns over a symbolic list
             h = self.w.comprehension_hook
             r = h(self, e, g, seq, env) if h else None
+            if r is not None:
+                return r
+        if isinstance(seq, Z) and seq.t.sort() == self.S.Py and isinstance(g.target, ast.Name):
+            seq = Z(self.to_list(seq, e.lineno), fresh=seq.fresh, origin=seq.origin)
+            r = self.w.comprehension_hook(self, e, g, seq, env)
             if r is not None:
                 return r
         raise Unsupported(f"comprehension over symbolic sequence (line {e.lineno})")
